@@ -379,18 +379,40 @@ func verify(c *common.Ctx, cp crashPoint, dbName string, allowed []posImg, key s
 			return
 		}
 	}
-	// the restarted node can commit again
+	// the restarted node can commit again, in the journal mode the recovered header names, and what it commits replicates
 	if followUp && primary && db != nil && len(im.Pages) > 0 {
-		h := hist.NewOn(c, c.Rng.Fork(), hist.Config{PageSize: im.PageSize}, n.Store, n.Exits, dbName, im, txid, false)
-		for tries := 0; tries < 60; tries++ {
+		walMode := len(im.Pages[0]) > 19 && im.Pages[0][18] == 2 && im.Pages[0][19] == 2
+		h := hist.NewOn(c, c.Rng.Fork(), hist.Config{PageSize: im.PageSize, AllowWAL: walMode, ForceWAL: walMode}, n.Store, n.Exits, dbName, im, txid, walMode)
+		wantOp := map[bool]string{false: "rtx", true: "wtx"}[walMode]
+		for tries := 0; tries < 200; tries++ {
 			st := h.GenStep()
-			if st.Op != "rtx" {
+			if st.Op != wantOp {
 				continue
 			}
 			st.Outcome, st.ToWAL = 0, false
 			ob := h.Exec(st)
+			c.Distinct("follow-up:" + wantOp)
 			if !ob.Captured || ob.Err != "" || ob.Panic != "" || ob.TXID != txid+1 {
 				c.Violate(key+":follow-up", fmt.Sprintf("crash at [%s]: the restarted node cannot commit again: err=%q panic=%q txid=%d", cp.Label, ob.Err, ob.Panic, ob.TXID), rep2)
+				break
+			}
+			// a replica at the recovered position applies the new transaction file
+			infos2, _ := lfs.ListLTX(filepath.Join(cp.Dir, "dbs", dbName))
+			var nf *lfs.LTXInfo
+			for i := range infos2 {
+				if infos2[i].Valid && infos2[i].Min == txid+1 && infos2[i].Max == txid+1 {
+					nf = &infos2[i]
+				}
+			}
+			if nf == nil {
+				c.Violate(key+":follow-up:file", fmt.Sprintf("crash at [%s]: the restarted node committed transaction %d but left no transaction file for it", cp.Label, txid+1), rep2)
+				break
+			}
+			rimg := lfs.ApplyLTX(im, *nf)
+			if nf.Pre != chk || rimg.Checksum() != nf.Post {
+				c.Violate(key+":follow-up:replicate", fmt.Sprintf("crash at [%s]: a replica at the recovered position (%d,%016x) cannot apply the transaction the restarted node commits next: file %s has pre-apply %016x, post-apply %016x, the database it produces checksums to %016x", cp.Label, txid, chk, nf.Name, nf.Pre, nf.Post, rimg.Checksum()), rep2)
+			} else if eq, why := rimg.Equal(h.Ref); !eq {
+				c.Violate(key+":follow-up:content", fmt.Sprintf("crash at [%s]: the transaction the restarted node commits next replicates as something else than the application wrote: %s", cp.Label, why), rep2)
 			}
 			break
 		}
@@ -417,6 +439,17 @@ var script = []hist.Step{
 
 // script2: a transaction whose journal is synced after 64 records and continues in a second segment: with 512-byte
 // pages and sectors the first segment ends exactly on a sector boundary (64 * 520 = 65 * 512)
+// script3: the journal-mode switches, every crash point followed by a commit on the restarted node
+var script3 = []hist.Step{
+	{Op: "rtx", Writes: map[uint32]uint64{1: 1, 2: 2, 3: 3}, NewSize: 3},
+	{Op: "rtx", Writes: map[uint32]uint64{1: 11}, NewSize: 3, ToWAL: true}, // PRAGMA journal_mode=wal
+	{Op: "wtx", Frames: [][2]uint64{{2, 22}, {4, 24}}, NewSize: 4},
+	{Op: "torollback", NewSize: 4}, // PRAGMA journal_mode=delete
+	{Op: "rtx", Writes: map[uint32]uint64{2: 32}, NewSize: 4},
+	{Op: "rtx", Writes: map[uint32]uint64{1: 41, 3: 43}, NewSize: 4, ToWAL: true, JMode: 1},
+	{Op: "wtx", Frames: [][2]uint64{{1, 51}}, NewSize: 2},
+}
+
 func script2() []hist.Step {
 	all := map[uint32]uint64{}
 	for pg := uint32(1); pg <= 70; pg++ {
@@ -439,6 +472,8 @@ func localHistories(c *common.Ctx, r *common.Rand, idx int, wal bool) error {
 	script := script
 	if idx == -2 {
 		script = script2()
+	} else if idx == -3 {
+		script = script3
 	}
 	dir, err := os.MkdirTemp(c.OutDir, "c05-")
 	if err != nil {
@@ -447,8 +482,11 @@ func localHistories(c *common.Ctx, r *common.Rand, idx int, wal bool) error {
 	defer os.RemoveAll(dir)
 	rc := &recorder{src: filepath.Join(dir, "node"), max: 400}
 	cfg := hist.Config{PageSize: []int{512, 1024, 4096}[r.Intn(3)], AllowWAL: wal, ForceWAL: wal, AllowDrop: true, BackToRollback: wal && r.Bool(), Clients: true}
-	if idx == -2 {
+	if idx == -2 || idx == -3 {
 		cfg.PageSize = 512
+	}
+	if idx == -3 {
+		cfg.BackToRollback = true
 	}
 	h := &hist.Runner{C: c, R: r, Cfg: cfg, Dir: rc.src, Name: "db", Ref: &lfs.Image{PageSize: cfg.PageSize}, OpenOpts: []lfs.Option{withRecorder(rc)}}
 	if err := h.Reopen(); err != nil {
@@ -519,7 +557,7 @@ func localHistories(c *common.Ctx, r *common.Rand, idx int, wal bool) error {
 			if k == len(points)-1 {
 				allowed = []posImg{after} // the operation returned: its result must not be lost
 			}
-			verify(c, cp, "db", allowed, key, rep, true, k%5 == 0)
+			verify(c, cp, "db", allowed, key, rep, true, k%5 == 0 || idx == -3)
 		}
 		os.RemoveAll(snapDir)
 	}
@@ -707,6 +745,9 @@ func Run(c *common.Ctx) error {
 	wcrashCases = c.Cases("cases_c05w", "Require Import LF.Model.PageDB LF.Model.Crash LF.Model.CrashWal.\nLocal Open Scope N_scope.", "wdisk * list N", "mismatches_wcrash")
 	wcrashCases.Shard = 150
 	if err := localHistories(c, c.Rng.Fork(), -1, true); err != nil {
+		return err
+	}
+	if err := localHistories(c, c.Rng.Fork(), -3, true); err != nil {
 		return err
 	}
 	if err := localHistories(c, c.Rng.Fork(), -2, false); err != nil {
